@@ -300,7 +300,9 @@ pub fn generate_w(stream: &str, seed: u64, n: usize, emit: &mut dyn FnMut(String
 						rng: &mut rng,
 						schema: &raw,
 						allow_slow: false,
-						exotic: 0.0,
+						// (out-of-order and map presentations too: a failure while fields are set aside
+						// in pooled buffers is what must leave no trace for the next value)
+						exotic: 0.5,
 						invalid: 0.25,
 						by_name_only: false,
 						maybe_invalid: false,
@@ -762,6 +764,46 @@ pub fn generate_r(stream: &str, seed: u64, n: usize, emit: &mut dyn FnMut(String
 	let mut produced = 0;
 	let mut files = 0usize;
 	while produced < n {
+		if stream == "ocfd" && files % 7 == 3 {
+			// A block of 1024 16-byte objects (two internal 8 KiB buffers of decompressed data) that
+			// declares fewer objects than it holds - exactly one buffer's worth (512), one less, one
+			// more, all but one -, followed by a well-formed block: the reader must report the
+			// mismatch, whatever the codec and wherever the declared objects happen to end.
+			files += 1;
+			let codec = CODECS[(files / 7) % CODECS.len()];
+			let raw: RawSchema = vec![RawNode { reg: Reg::Fixed("F".into(), 16), logical: None }];
+			let schema = build::to_schema_mut(&raw).freeze().expect("fixed schema");
+			let sync: Vec<u8> = (0..16).map(|_| rng.gen()).collect();
+			let datums: Vec<Vec<u8>> = (0..1026).map(|_| (0..16).map(|_| rng.gen()).collect()).collect();
+			let header = independent_file(&mut rng, codec, schema.json(), &[], &sync);
+			for declared in [512i64, 511, 513, 1023, 1] {
+				let mut f = header.clone();
+				let data = compress_block(codec, &datums[..1024].concat());
+				put_long(declared, &mut f);
+				put_long(data.len() as i64, &mut f);
+				f.extend_from_slice(&data);
+				f.extend_from_slice(&sync);
+				let data2 = compress_block(codec, &datums[1024..].concat());
+				put_long(2, &mut f);
+				put_long(data2.len() as i64, &mut f);
+				f.extend_from_slice(&data2);
+				f.extend_from_slice(&sync);
+				let backends = vec![Backend::Slice, Backend::Reader { last: 8192, sched: vec![], max_alloc: 512 * 1024 * 1024 }, Backend::Reader { last: 7, sched: vec![], max_alloc: 512 * 1024 * 1024 }];
+				let mut w = W::default();
+				w.t("ocfd").t("countlow").t(codec).schema(&raw).xs(schema.json()).hint(&Hint::Any).n(backends.len());
+				for b in &backends {
+					write_backend(&mut w, b);
+				}
+				w.xb(&f).n(datums.len());
+				for d in &datums {
+					w.xb(d);
+				}
+				w.n(0);
+				emit(w.s);
+				produced += 1;
+			}
+			continue;
+		}
 		let big = stream == "ocfr-big";
 		let mut sg = SchemaGen::new(&mut rng, 8, false);
 		// decimals only where the file is damaged on purpose (an I/O error met while the bytes of a
@@ -820,7 +862,13 @@ pub fn generate_r(stream: &str, seed: u64, n: usize, emit: &mut dyn FnMut(String
 		let file = if rng.gen_bool(0.5) {
 			match crate_file(&mut rng, codec, &schema, &values, &sync) {
 				Some(f) => f,
-				None => continue,
+				None => {
+					// the crate's own writer refused values that each serialize as a datum: that is a
+					// failure of the property this stream is about, not a case to drop silently
+					emit(format!("genfail {codec} the container writer returned an error on conforming values"));
+					produced += 1;
+					continue;
+				}
 			}
 		} else {
 			independent_file(&mut rng, codec, schema.json(), &datums, &sync)
@@ -944,7 +992,7 @@ where
 	// files of an even length read without a shape hint: it must yield the same sequence
 	if *hint == Hint::Any && file_len % 2 == 0 {
 		let mut it = reader.deserialize::<crate::streams::ser::AnyOut>();
-		for _ in 0..400 {
+		for _ in 0..(400 + file_len / 16) {
 			match it.next() {
 				None => {
 					outs.push("eof".to_string());
@@ -967,7 +1015,7 @@ where
 		}
 		return outs;
 	}
-	for _ in 0..400 {
+	for _ in 0..(400 + file_len / 16) {
 		match reader.deserialize_seed_next(crate::hintde::HS(hint)) {
 			Ok(None) => {
 				outs.push("eof".to_string());
@@ -1104,7 +1152,10 @@ pub fn run_r(line: &str) -> Result<String, String> {
 				}
 				return Ok("judged # VIOLATION the reader does not reach end of stream".into());
 			}
-			if kind == "trunc" {
+			if kind == "countlow" && !yields.iter().any(|y| y.starts_with("e")) {
+				return Ok("judged # VIOLATION a block holding more objects than it declares was read without any error (the undeclared objects are silently lost)".into());
+			}
+			if kind == "trunc" || kind == "countlow" {
 				let vals: Vec<String> = yields.iter().take_while(|y| y.starts_with("v ")).map(|y| strip(y)).collect();
 				let rest: Vec<&String> = yields.iter().skip(vals.len()).collect();
 				let prefix_ok = vals.len() <= expected.len()
